@@ -6,7 +6,9 @@ single structural differences.
   + correspondence: real Comparer(a, b).compare() vs extracted model cmp_run on the canonical
     value of both netlists, for (netlist, copy), (netlist, mutated copy), (mutated copy, netlist)
   + oracle, independent of the model: on named netlists an equal copy (rebuild / clone / EDIF
-    write-then-read) is accepted, and every mutation of a class the property lists raises
+    write-then-read) is accepted, a copy whose siblings are listed in another order is accepted,
+    and every mutation of a class the property lists - alone, after a reordering, or two at
+    once - raises
   + kernel cross-check of the extracted code on a sample (thorough tier)
   + evidence."""
 import collections, json, os, random, subprocess, sys, time, shutil, tempfile
@@ -39,20 +41,34 @@ def run_model(lines):
 # ------------------------------------------------------------------ findings
 def load_findings(prop):
     """open findings: the shared known_findings.json plus the engine-local list (the shared file
-    is not ours to edit; the entries to move there are in corpus/cmp/known_findings.json)"""
-    fs = [f for f in common.load_known_findings(prop) if f.get('status') == 'open']
+    is not ours to edit; the entries to move there are in corpus/cmp/known_findings.json).
+    An entry present in both is one finding: its signatures are the union of the two lists."""
+    fs = [dict(f) for f in common.load_known_findings(prop) if f.get('status') == 'open']
+    by_id = {f['id']: f for f in fs}
     if os.path.exists(LOCAL_FINDINGS):
         for f in json.load(open(LOCAL_FINDINGS)).get('findings', []):
-            if f.get('property') == prop and f.get('status') == 'open' and f['id'] not in [g['id'] for g in fs]:
+            if f.get('property') != prop or f.get('status') != 'open':
+                continue
+            g = by_id.get(f['id'])
+            if g is None:
                 fs.append(f)
+                by_id[f['id']] = f
+            else:
+                a = g.get('signature')
+                a = list(a) if isinstance(a, list) else [a]
+                b = f.get('signature')
+                b = b if isinstance(b, list) else [b]
+                g['signature'] = a + [x for x in b if x not in a]
     return fs
 
 
 def match_finding(findings, sig):
+    """sig: one signature or a list of alternatives"""
+    want = sig if isinstance(sig, list) else [sig]
     for f in findings:
         sigs = f.get('signature')
         sigs = sigs if isinstance(sigs, list) else [sigs]
-        if sig in sigs:
+        if any(w in sigs for w in want):
             return f
     return None
 
@@ -77,43 +93,84 @@ def eval_case(case):
     if case.get('pairs', 'all') in ('all', 'equal'):
         real, msg = cmp_canon.run_real(a, b)
         pairs.append({'tag': 'equal', 'cls': 'equal:' + case['copy'], 'line': ' '.join(ca + cb), 'real': real,
-                      'msg': msg, 'canon_equal': faithful})
+                      'msg': msg, 'canon_equal': faithful, 'rel': cmp_canon.relation(a, b)})
     if case.get('mutate'):
         cmp_gen.apply_mops(b, case['mutate'])
         cb2 = cmp_canon.canon(b)
         cls = case['cls']
-        rev = cmp_gen.CLASSES[base_class(cls)][1] + ('+' + cls.split('+')[1] if '+' in cls else '') \
-            if base_class(cls) in cmp_gen.CLASSES else cls + '~rev'
+        rev = cmp_gen.rev_class(cls)
         if case.get('pairs', 'all') in ('all', 'ab'):
             real, msg = cmp_canon.run_real(a, b)
             pairs.append({'tag': 'ab', 'cls': cls, 'line': ' '.join(ca + cb2), 'real': real, 'msg': msg,
-                          'canon_equal': ca == cb2, 'copy_faithful': faithful})
+                          'canon_equal': ca == cb2, 'copy_faithful': faithful, 'rel': cmp_canon.relation(a, b)})
         if case.get('pairs', 'all') in ('all', 'ba'):
             real, msg = cmp_canon.run_real(b, a)
             pairs.append({'tag': 'ba', 'cls': rev, 'line': ' '.join(cb2 + ca), 'real': real, 'msg': msg,
-                          'canon_equal': ca == cb2, 'copy_faithful': faithful})
+                          'canon_equal': ca == cb2, 'copy_faithful': faithful, 'rel': cmp_canon.relation(b, a)})
     return pairs
+
+
+EQUIV = ('perm',)                 # same structure, siblings listed in another order
+SETEQ = ('pin_order',)            # same connectivity, pins of a wire listed in another order
+NEUTRAL = ('lower_index', 'top_drop', 'top_add', 'oid', 'oid_rev', 'rename')   # not listed by the property
+BLIND = ('prop_added_entry', 'prop_added_key', 'prop_new')
 
 
 def oracle(case, pair):
     """The property evaluated on the implementation's answer alone (no model involved).
-    -> None or a signature string of the failure"""
+    -> None, or the list of signatures of the failure (first = the one reported; a failure is a
+    known finding when any of them is listed by an open finding)"""
     import cmp_gen
     if case.get('mode') != 'named':
         return None
     if pair['tag'] == 'equal':
         if not pair['canon_equal']:
             return None            # the copy route itself lost something (EDIF): not the comparer's business
-        return None if pair['real'] == 'accept' else 'equal-copy|%s|%s' % (case['copy'], pair['real'])
+        return None if pair['real'] == 'accept' else ['equal-copy|%s|%s' % (case['copy'], pair['real'])]
     if not pair.get('copy_faithful', True):
         return None
-    cls = base_class(pair['cls'])
-    if cls not in cmp_gen.PROPERTY_CLASSES:
+    parts = cmp_gen.class_parts(pair['cls'])
+    real = pair['real']
+    rel = pair.get('rel')
+    label = '&'.join(parts)
+    # (1) by the structural relation of the two netlists, computed from the real objects by
+    #     cmp_canon.relation (mirror of Cmp/Equiv.v; independent of the comparer and of the labels)
+    if rel == 'equiv_ord' and real != 'accept':
+        return ['%s-equivalent|%s' % ('rejects' if real == 'reject' else 'raises-' + real, label)]
+    if rel == 'equiv_set' and real != 'accept':
+        return ['%s-equivalent|pin_order' % ('rejects' if real == 'reject' else 'raises-' + real)]
+    if rel == 'different' and real == 'accept' and not any(c in NEUTRAL or c.endswith('~rev') for c in parts):
+        return ['accepts|%s' % '&'.join(c for c in parts if c not in EQUIV and c not in SETEQ)]
+    # (2) by the classes of the edits
+    if any(c in NEUTRAL or c.endswith('~rev') for c in parts):
         return None
-    if pair['real'] == 'accept':
-        return 'accepts|%s' % cls
-    if pair['real'] != 'reject':
-        return 'raises-%s|%s' % (pair['real'], cls)
+    diffs = [c for c in parts if c not in EQUIV and c not in SETEQ]
+    if any(c not in cmp_gen.PROPERTY_CLASSES for c in diffs):
+        return None
+    if len(parts) > 1 and rel is not None:
+        # several edits may undo or absorb each other: the relation decides what is expected
+        if rel in ('equiv_ord', 'equiv_set'):
+            return None
+        if rel in ('covered', 'covered_set'):
+            # only properties that the second netlist has in excess: the known hole
+            return ['accepts|covered'] if real == 'accept' else None
+    elif not diffs or pair.get('canon_equal'):
+        if real == 'accept':
+            return None
+        which = 'pin_order' if any(c in SETEQ for c in parts) else (parts[0] if not diffs else 'undone')
+        return ['%s-equivalent|%s' % ('rejects' if real == 'reject' else 'raises-' + real, which)]
+    if len(parts) > 1 and any(m[0] == 'create' and m[3] is None for m in (case.get('mutate') or [])):
+        return None                # an unnamed element was created: outside the named netlists
+    label = '&'.join(diffs)
+    if real == 'accept':
+        if all(c in BLIND for c in diffs):
+            return ['accepts|%s' % diffs[0]]
+        return ['accepts|%s' % label]
+    if real != 'reject':
+        sigs = ['raises-%s|%s' % (real, label)]
+        if len(diffs) > 1:
+            sigs += ['raises-%s|%s' % (real, c) for c in diffs] + ['raises-%s|double' % real]
+        return sigs
     return None
 
 
@@ -129,20 +186,27 @@ def gen_case(seed, mode, idx, cls, copy):
     except cmp_gen.Inapplicable:
         case['copy'] = 'rebuild'
         b = cmp_gen.build_netlist(build)
-    # try the requested class first, then others, until one applies
+    # try the requested class first, then others, until one applies;
+    # 'x&y' = two differences, the second generated on the copy that already carries the first
     order = [cls] + rng.sample(sorted(cmp_gen.CLASSES), len(cmp_gen.CLASSES))
     for c in order:
+        mops, labels, applied = [], [], False
         try:
-            mops = cmp_gen.gen_mutation(rng, b, c)
+            for part in c.split('&'):
+                ms = cmp_gen.gen_mutation(rng, b, part)
+                # the API may refuse the edit (e.g. a name already in use): not a mutation then
+                applied = True
+                cmp_gen.apply_mops(b, ms)
+                mops += ms
+                labels.append(part + ('+steal' if part.startswith('conn_') and len(ms) == 3 else ''))
         except cmp_gen.Inapplicable:
+            if applied:
+                b = cmp_gen.make_copy(a, build, case['copy'])
             continue
-        try:
-            # the API may refuse the edit (e.g. a name already in use): not a mutation then
-            cmp_gen.apply_mops(b, mops)
         except Exception:  # noqa
             b = cmp_gen.make_copy(a, build, case['copy'])
             continue
-        case['cls'] = c + ('+steal' if c.startswith('conn_') and len(mops) == 3 else '')
+        case['cls'] = '&'.join(labels)
         case['mutate'] = mops
         break
     return case
@@ -412,6 +476,14 @@ def run(prop, tier, seed, replay):
         cls = classes[(idx // 3 * 2 + idx % 3) % len(classes)] if mode == 'named' else r.choice(classes)
         if mode == 'named' and idx % 9 == 1:
             cls = 'conn_inst'  # the class with the rarest trigger (same pin of a twin instance): extra share
+        if mode == 'named' and idx % 18 == 4:
+            # structurally equal pairs (siblings / pins listed in another order), alone or followed by one difference
+            k = idx // 18
+            cls = ['perm', 'perm&' + r.choice(G.PROPERTY_CLASSES), 'pin_order', 'perm&' + r.choice(G.PROPERTY_CLASSES),
+                   'perm', 'lower_index'][k % 6]
+        if mode == 'named' and idx % 18 == 13:
+            # two differences at once
+            cls = r.choice(G.PROPERTY_CLASSES) + '&' + r.choice(G.PROPERTY_CLASSES)
         try:
             case = gen_case(seed, mode, idx, cls, copy)
             pairs = eval_case(case)
@@ -567,6 +639,9 @@ def trusted_base(proof):
         'harness/cmp_canon.py (canonical value of a real netlist = what the comparer can read: names, original identifiers, '
         'directions, is_array, pin/wire counts, pins of every wire as (instance name, port name, index), references, EDIF.properties), '
         'harness/cmp_gen.py (netlists, copies, mutations through the public API), harness/netgen.py, harness/ir_world.py',
+        'harness/cmp_canon.py relation(): Python mirror of the declarative relations of coq/theories/Cmp/Equiv.v (siblings matched by name in any '
+        'order, pins per wire ordered / as a set, properties under ==), computed from the real objects; the oracle expects accept exactly on '
+        'equivalent pairs (pairs that differ only in the pin order of a wire or in extra properties of the second netlist are the open findings)',
         'the model coq/theories/Cmp/Comparer.v is hand-written: tied to /repo only by the correspondence run reported here',
         'sibling names are unique and name lookups answer from the namespace tables = scan of the named children (property C10, engine ir)',
         'CPython 3.12 semantics of ==, str.split, str.startswith, fnmatch.fnmatchcase',
